@@ -202,16 +202,18 @@ impl Card {
         id
     }
     fn misb_hit(&mut self, when: &str) -> Option<(String, i64)> {
+        // every pending misbehaviour keyed on this kind of event counts the event; the first that is due fires
+        let mut hit = None;
         for m in self.misb.iter_mut() {
             if m.when == when && !m.fired {
                 m.seen += 1;
-                if m.seen == m.nth {
+                if m.seen == m.nth && hit.is_none() {
                     m.fired = true;
-                    return Some((m.what.clone(), m.arg));
+                    hit = Some((m.what.clone(), m.arg));
                 }
             }
         }
-        None
+        hit
     }
     pub fn flush_idle_pub(&mut self) {
         self.flush_idle();
@@ -293,6 +295,10 @@ impl Card {
                         }
                     }
                 }
+                "spi" => {
+                    self.spi_error_at = Some(self.total_bytes + 1);
+                    misb = "none".to_string();
+                }
                 "errtoken" => token = 0x09, // data error token (out of range)
                 "badtoken" => token = 0xFC,
                 "notoken" => token = 0xFF,
@@ -346,6 +352,10 @@ impl Card {
             misb = w;
         } else if let Some((w, _a)) = self.misb_hit("cmd") {
             misb = w;
+        }
+        if misb == "spi" {
+            self.spi_error_at = Some(self.total_bytes + 1);
+            misb = "none".to_string();
         }
         if misb == "silent" {
             // the card does not react to this frame at all
@@ -547,18 +557,18 @@ impl Card {
         }
         if let Some(k) = self.spi_error_at {
             if self.total_bytes == k {
-                self.flush_idle();
-                self.log.push(json!({"ev": "SpiError", "at": k}));
-                self.frame.clear();
-                self.in_block = false;
-                self.block.clear();
-                self.outq.clear();
-                self.pending_data.clear();
-                self.busy_pending = 0;
-                self.mode = Mode::Cmd;
-                self.rd_active = false;
-                self.app = false;
+                self.spi_fail(k);
                 return Err(SimErr);
+            }
+        }
+        // an SPI failure on the n-th token byte (start block / stop) the host sends in a write
+        if !self.in_block && self.frame.is_empty() && matches!(self.mode, Mode::WrSingle | Mode::WrMulti) && matches!(mosi, 0xFE | 0xFC | 0xFD) {
+            if let Some((w, _)) = self.misb_hit("tok") {
+                if w == "spi" {
+                    let k = self.total_bytes;
+                    self.spi_fail(k);
+                    return Err(SimErr);
+                }
             }
         }
         if let Some(k) = self.dead_from {
@@ -579,6 +589,21 @@ impl Card {
             }
         }
         Ok(self.step(mosi))
+    }
+
+    /// the bus transaction fails: the card is released (chip select goes up), nothing is pending any more
+    fn spi_fail(&mut self, k: u64) {
+        self.flush_idle();
+        self.log.push(json!({"ev": "SpiError", "at": k}));
+        self.frame.clear();
+        self.in_block = false;
+        self.block.clear();
+        self.outq.clear();
+        self.pending_data.clear();
+        self.busy_pending = 0;
+        self.mode = Mode::Cmd;
+        self.rd_active = false;
+        self.app = false;
     }
 
     fn next_out(&mut self) -> u8 {
@@ -717,6 +742,10 @@ impl Card {
                 "crcreject" => resp = 0x0B,
                 "writeerr" => resp = 0x0D,
                 "garbage" => resp = 0x1F,
+                "spi" => {
+                    self.spi_error_at = Some(self.total_bytes + 1);
+                    misb = "none".to_string();
+                }
                 _ => {}
             }
         }
